@@ -54,10 +54,34 @@ def explore(ctx):
                                      "text": f"per-byte dictionary test recovers bytes of the encrypted scalar without the key on a {rep['kind']} statement: {br}", "case": s})
         if len(samples) < 4:
             samples.append({"suite": s["suite"], "stmts": s["stmts"], "leak_report": r["leak"]})
+    # ---- value dependence: the same claim vectors under fresh signatures, against other claim vectors, one nonce
+    vs = []
+    for i in range(120 if tier == "thorough" else 24):
+        heavy = (i % 6 == 0)
+        s = CC.gen(rng, "ps" if i % 2 else "bbs", n_creds=2, kinds=["rev", "mem", "comm", "range", "venc"] + (["vencdec", "vdec"] if heavy else []), heavy=heavy, shared_issuer=True)
+        for j, cl in enumerate(s["creds"][0]["claims"]):
+            if cl["t"] == "n":
+                s["creds"][1]["claims"][j] = dict(cl)       # the other vector satisfies the same range statements
+        s["stmts"] = [x for x in s["stmts"] if x["id"].endswith("0")]
+        s["action"] = {"k": "valuedep", "alt": {"s0": 1}}
+        vs.append(s)
+    vimpl = C.run_exec_parallel(vs, nproc=16, timeout=7200)
+    hist["valuedep_leaves"] = 0
+    for s, r in zip(vs, vimpl):
+        if r.get("create") != "ok" or r.get("verify") != "ok" or r.get("verifyb") != "ok" or "valuedep" not in r:
+            failures.append({"class": None, "witness": False, "text": f"honest baseline failed (value-dependence part): {json.dumps(r)[:300]}", "case": s})
+            continue
+        hist["valuedep_leaves"] += r["n_leaves"]
+        n_tests += 1
+        distinct.add(C.case_hash([s["suite"], s["stmts"], "valuedep"]))
+        for h in r["valuedep"]:
+            hist["hits"] += 1
+            failures.append({"class": None, "witness": True,
+                             "text": f"a transmitted element is a function of the hidden claim values alone: {h['path']} is the same for two independently issued credentials over the same claims and differs for other claims ({s['suite']}); candidate values can be tested against it", "case": s})
     return {
         "evaluations": n_tests,
         "distinct_nontrivial": len(distinct),
-        "rule": "cases = honestly created presentations over generated schemas containing commitment / range / verifiable-encryption (with and without scalar decryption) / encrypt-and-decrypt / equality / revocation statements on hidden claims of every type, BBS and PS; per predicate statement the distinguisher catalogue is evaluated with the signed value and 3+ decoys; a relation that holds for the signed value and for no decoy is a violation; distinct by (suite, statements, statement id)",
+        "rule": "cases = honestly created presentations over generated schemas containing commitment / range / verifiable-encryption (with and without scalar decryption) / encrypt-and-decrypt / equality / revocation statements on hidden claims of every type, BBS and PS; per predicate statement the distinguisher catalogue is evaluated with the signed value and 3+ decoys; a relation that holds for the signed value and for no decoy is a violation; plus, per schema, three presentations under one nonce (the credentials, freshly issued credentials over the same claim vectors, credentials over other claim vectors): a leaf of the hidden part equal in the first two and different in the third is a violation; distinct by (suite, statements, statement id)",
         "samples": samples or [{}],
         "histograms": hist,
         "failures": failures,
